@@ -2,6 +2,7 @@ import MosnVerif.Lemmas.LB
 import MosnVerif.Lemmas.Snapshot
 import MosnVerif.Lemmas.ClusterPub
 import MosnVerif.Lemmas.HostOps
+import MosnVerif.Lemmas.PubVal
 /-!
 # C05 — load balancers return only current, healthy members (property theorems only)
 
@@ -226,6 +227,72 @@ theorem store_before_fill_sees_neither :
     seen (run (initConf storeBeforeFill 1) [1, 1, 1, 1, 0, 0, 1, 1, 2, 2]) 2 = some (some 0) := by decide
 
 end PublicationOrder
+
+/-! ## WHAT is published: every value a reader can see during an update
+
+`Gen/PubVal.lean` is regenerated from `cluster_manager.go`: for every handler, which variable each `UpdateHosts` call
+publishes and from what list it was built (complete list / empty / a list still being filled / unknown).
+`Model/PubVal.lean` runs an update step by step over cells that carry host set VALUES (`old`, `new`, `empty`, `filling`,
+`junk`) and lists what a reader sees after EVERY atomic step (`trace`); the harness observes exactly the steps `isEvent`
+marks through the verif publish hook. -/
+section PublicationValues
+open MosnVerif.Model.PubVal MosnVerif.Gen.PubVal
+
+/-- **publication_values_discipline**: in every regenerated updater each publish hands over a set built from the complete
+list the handler computed (or the old cluster's own set), the new cluster object reaches `clustersMap` only after that, and
+the order program the value program stands for passes the order check of `lookup_never_neither`. -/
+theorem publication_values_discipline :
+    updatersV.all (fun p => valuesOk p && MosnVerif.Model.ClusterPub.orderOk (abstract [] p)) = true := by decide
+
+/-- **every_published_value_old_or_new**: for EVERY update program with that value discipline (any number of builds,
+publishes, variables), after EVERY atomic step of the update — i.e. at every point where a lookup can run — the value a
+reader sees is the complete old or the complete new set; never an empty, partially filled or unknown one. -/
+theorem every_published_value_old_or_new (prog : List VStep) (h : valuesOk prog = true) :
+    ∀ p ∈ trace {} prog, p.2 = .old ∨ p.2 = .new :=
+  trace_good prog {} {} inv_init h
+
+/-- **window_lookup_old_or_new**: every window of every regenerated updater (the moments the publish hook reports) shows
+the old or the new set. -/
+theorem window_lookup_old_or_new (prog : List VStep) (hp : prog ∈ updatersV) :
+    ∀ p ∈ events prog, p.2 = .old ∨ p.2 = .new := by
+  intro p hp'
+  have hv : valuesOk prog = true := by
+    have := List.all_eq_true.mp publication_values_discipline prog hp
+    simp only [Bool.and_eq_true] at this
+    exact this.1
+  exact every_published_value_old_or_new prog hv p (List.mem_filter.mp hp').1
+
+/-- **concurrent_values_never_neither**: any number of concurrent updaters running a value program whose order abstraction
+passes the order check, any number of lookups, EVERY schedule: a finished lookup saw a supplied set (`lookup_never_neither`
+on the abstraction, in which a publish of anything but a complete built set stores "neither"). -/
+theorem concurrent_values_never_neither (prog : List VStep)
+    (h : MosnVerif.Model.ClusterPub.orderOk (abstract [] prog) = true) (nUpd : Nat) (sched : List Nat) (t : Nat)
+    (r : Option Nat)
+    (hs : MosnVerif.Model.ClusterPub.seen
+      (MosnVerif.Model.ClusterPub.run (MosnVerif.Model.ClusterPub.initConf (abstract [] prog) nUpd) sched) t = some r) :
+    ∃ v, r = some v ∧ v ≤ nUpd := by
+  obtain ⟨v, h1, h2, _⟩ := lookup_never_neither (abstract [] prog) h nUpd sched t r hs
+  exact ⟨v, h1, h2⟩
+
+-- non-vacuity: AddOrUpdateClusterAndHost publishes into the new cluster (a reader still sees the old set), then stores it
+example : expandV clusterAndHostHandlerV MosnVerif.Gen.ClusterPub.updateCluster ∈ updatersV := by decide
+example : (events (expandV clusterAndHostHandlerV MosnVerif.Gen.ClusterPub.updateCluster)).map (·.2) = [.old, .new] := by decide
+example : (events (expandV removeHostsHandlerV MosnVerif.Gen.ClusterPub.updateHostsMgr)).map (·.2) = [.new] := by decide
+
+/-- **empty_publish_is_seen** (negative witness, machine-checked): a handler that publishes `NewHostSet(nil)` before the
+real set, or a set whose list is still being filled, fails the value check, and the reader in that window sees the empty /
+half-filled set. The end state is the same as without the extra publish. -/
+theorem empty_publish_is_seen :
+    valuesOk emptyFirst = false ∧ (events emptyFirst).map (·.2) = [.empty, .new] ∧
+    valuesOk publishWhileFilling = false ∧ (events publishWhileFilling).map (·.2) = [.filling] := by decide
+
+/-- **health_change_is_one_atomic_step**: MOSN keeps no derived healthy-host set — `hostSet` holds only the immutable list
+and `Health()` reads the per-address flag word on every probe (both regenerated) — so a health change is one atomic word
+update (a `flip` operation of `history`) and there is no rebuild-then-swap window in which a lookup could see a half-built
+healthy set. A cached healthy list added to `hostSet` breaks this theorem (=> the tie is reported broken). -/
+theorem health_change_is_one_atomic_step : healthIsWordRead = true ∧ hostSetExtraFields = 0 := by decide
+
+end PublicationValues
 
 /-! ## which host OBJECT the cluster carries for an address
 
